@@ -61,6 +61,13 @@ class Scheduler:
     def __init__(self, schedule=()):
         self.schedule = list(schedule)
         self.pos = 0
+        # lanes: groups of threads, each with its own schedule (one lane unless `new_lane` is used - C13's histories of runs, where
+        # the leftover workers of an aborted run go on under THEIR run's schedule while the next run follows its own).  Decisions
+        # rotate over the lanes that have an enabled thread; inside a lane: the next schedule entry naming an enabled thread of
+        # the lane, else its lowest enabled thread - so a lane's own sequence of decisions is what it would be without the others.
+        self.lanes = [{'schedule': self.schedule, 'pos': 0}]
+        self.lane_of = {}
+        self.lane_pos = 0
         self.current = CTL
         self.wake = {CTL: threading.Semaphore(0)}   # who -> its private semaphore
         self.eager = {}       # tid -> spawner, while the new thread runs up to its first yield point
@@ -99,17 +106,35 @@ class Scheduler:
                         self.wake[t].release()
             return CTL
         nxt = None
-        while self.pos < len(self.schedule):
-            want = self.schedule[self.pos]
-            self.pos += 1
-            if want in en:
-                nxt = want
-                break
-            self.skipped += 1
-        if nxt is None:
-            nxt = min(en)
+        nl = len(self.lanes)
+        for d in range(nl):
+            li = (self.lane_pos + d) % nl
+            lane = self.lanes[li]
+            cand = [t for t in en if self.lane_of.get(t, self.lanes[0]) is lane]
+            if not cand:
+                continue
+            self.lane_pos = (li + 1) % nl
+            while lane['pos'] < len(lane['schedule']):
+                want = lane['schedule'][lane['pos']]
+                lane['pos'] += 1
+                if want in cand:
+                    nxt = want
+                    break
+                self.skipped += 1
+            if nxt is None:
+                nxt = min(cand)
+            break
+        self.pos = self.lanes[0]['pos']
         self.picks.append(nxt)
         return nxt
+
+    def new_lane(self, schedule):
+        """called by the running thread: from now on it (and the threads it spawns) follow `schedule`; the threads of the lanes
+        made so far keep following theirs"""
+        lane = {'schedule': list(schedule), 'pos': 0}
+        self.lanes.append(lane)
+        self.lane_of[_local.tid] = lane
+        return lane
 
     def spawn(self, tid, fn, by=CTL):
         """create thread `tid` running fn(); it runs eagerly to its first yield point, then `by` continues"""
@@ -133,6 +158,7 @@ class Scheduler:
                         self._hand(self._decide())
         th = threading.Thread(target=body, daemon=True)
         self.threads[tid] = th
+        self.lane_of[tid] = self.lane_of.get(by, self.lanes[0])
         self.order.append(tid)
         self.eager[tid] = by
         th.start()
